@@ -1,0 +1,32 @@
+//go:build verif
+
+package shell_operator
+
+import (
+	"github.com/flant/shell-operator/pkg/task/queue"
+)
+
+// VerifC17RunSteps is VerifC03Run with a callback between the steps (property C17: the shutdown
+// request at every point of the start-up). The steps of Start() that concern the queues are performed
+// in the same order; between is called with 0 before bootstrapMainQueue (the set is empty), 1 before
+// StartMain, 2 before initAndStartHookQueues, 3 before the events consumer is started, 4 at the end.
+func (op *ShellOperator) VerifC17RunSteps(tune func(q *queue.TaskQueue), between func(step int)) {
+	if between == nil {
+		between = func(int) {}
+	}
+	between(0)
+	op.bootstrapMainQueue(op.TaskQueues)
+	if tune != nil {
+		tune(op.TaskQueues.GetMain())
+	}
+	between(1)
+	op.TaskQueues.StartMain()
+	between(2)
+	op.initAndStartHookQueues()
+	if tune != nil {
+		op.TaskQueues.Iterate(func(q *queue.TaskQueue) { tune(q) })
+	}
+	between(3)
+	op.ManagerEventsHandler.Start()
+	between(4)
+}
